@@ -591,3 +591,145 @@ func RectCavity(r *Rng) (subj, clp Paths) {
 	}
 	return
 }
+
+// Touching: constructed (not random-position) inputs whose rings touch exactly: tilings of many cells sharing whole
+// edges, pinwheels of triangles around one vertex, squares and diamonds inscribed in one another (every ring touches
+// its parent at four points), a hole that touches its outer ring at a vertex with an island touching the hole, and
+// single paths that revisit a vertex. Scaled and then shifted by a large offset in some cases (coordinates above 2^28
+// with differences far below 2^31).
+func Touching(r *Rng) (subj, clp Paths) {
+	var all Paths
+	orient := func(p Path, ccw bool) Path {
+		if (area2(p) > 0) != ccw {
+			return Reverse(p)
+		}
+		return p
+	}
+	mode := r.Intn(6)
+	switch mode {
+	case 0: // tiling
+		g := int64(3 + r.Intn(4))
+		for x := int64(0); x < g; x++ {
+			for y := int64(0); y < g; y++ {
+				if !r.Chance(0.7) {
+					continue
+				}
+				ccw := r.Chance(0.8)
+				switch r.Intn(3) {
+				case 0:
+					all = append(all, Box(2*x, 2*y, 2*x+2, 2*y+2, ccw))
+				case 1:
+					all = append(all, orient(Path{{X: 2 * x, Y: 2 * y}, {X: 2*x + 2, Y: 2 * y}, {X: 2*x + 2, Y: 2*y + 2}}, ccw),
+						orient(Path{{X: 2 * x, Y: 2 * y}, {X: 2*x + 2, Y: 2*y + 2}, {X: 2 * x, Y: 2*y + 2}}, ccw))
+				default:
+					all = append(all, orient(Path{{X: 2 * x, Y: 2 * y}, {X: 2*x + 2, Y: 2 * y}, {X: 2 * x, Y: 2*y + 2}}, ccw),
+						orient(Path{{X: 2*x + 2, Y: 2 * y}, {X: 2*x + 2, Y: 2*y + 2}, {X: 2 * x, Y: 2*y + 2}}, ccw))
+				}
+			}
+		}
+	case 1: // pinwheel around (8,8)
+		dirs := []Pt{{X: 8, Y: 0}, {X: 8, Y: 4}, {X: 8, Y: 8}, {X: 4, Y: 8}, {X: 0, Y: 8}, {X: -4, Y: 8}, {X: -8, Y: 8}, {X: -8, Y: 4}, {X: -8, Y: 0},
+			{X: -8, Y: -4}, {X: -8, Y: -8}, {X: -4, Y: -8}, {X: 0, Y: -8}, {X: 4, Y: -8}, {X: 8, Y: -8}, {X: 8, Y: -4}}
+		k := 3 + r.Intn(8)
+		for i := 0; i < k; i++ {
+			a := r.Intn(len(dirs))
+			b := (a + 1 + r.Intn(3)) % len(dirs)
+			all = append(all, orient(Path{{X: 8, Y: 8}, {X: 8 + dirs[a].X, Y: 8 + dirs[a].Y}, {X: 8 + dirs[b].X, Y: 8 + dirs[b].Y}}, r.Chance(0.8)))
+		}
+	case 2: // squares and diamonds inscribed in one another
+		depth := 2 + r.Intn(6)
+		x0, y0, x1, y1 := int64(0), int64(0), int64(64), int64(64)
+		alt := r.Bool()
+		for d := 0; d < depth && x1-x0 >= 2; d++ {
+			ccw := !alt || d%2 == 0
+			if d%2 == 0 {
+				all = append(all, Box(x0, y0, x1, y1, ccw))
+			} else {
+				mx, my := (x0+x1)/2, (y0+y1)/2
+				all = append(all, orient(Path{{X: mx, Y: y0}, {X: x1, Y: my}, {X: mx, Y: y1}, {X: x0, Y: my}}, ccw))
+				q := (x1 - x0) / 4
+				x0, y0, x1, y1 = x0+q, y0+q, x1-q, y1-q
+			}
+		}
+	case 3: // hole touching its outer ring at a vertex / on an edge, island touching the hole
+		all = append(all, Box(0, 0, 16, 16, true))
+		hv := PickOf(r, Pt{X: 0, Y: 0}, Pt{X: 8, Y: 0}, Pt{X: 16, Y: 16}, Pt{X: 0, Y: 6})
+		h := Path{hv, {X: 12, Y: 4 + r.Range(0, 2)}, {X: 4 + r.Range(0, 2), Y: 12}}
+		all = append(all, orient(h, r.Chance(0.3)))
+		if r.Chance(0.8) {
+			iv := PickOf(r, h[1], h[2], Pt{X: (h[1].X + h[2].X) / 2, Y: (h[1].Y + h[2].Y) / 2})
+			isl := Path{iv, {X: 8, Y: 6}, {X: 6, Y: 8}}
+			all = append(all, orient(isl, r.Chance(0.8)))
+		}
+		if r.Chance(0.4) {
+			all = append(all, Box(16, 4, 24, 12, true)) // a neighbour sharing part of an edge
+		}
+	case 4: // one path revisiting a vertex: loops joined at (8,8)
+		k := 2 + r.Intn(3)
+		p := Path{}
+		quad := r.Perm(4)
+		for i := 0; i < k; i++ {
+			sx, sy := int64(1), int64(1)
+			if quad[i]&1 == 1 {
+				sx = -1
+			}
+			if quad[i]&2 == 2 {
+				sy = -1
+			}
+			a, b := Pt{X: 8 + sx*r.Range(2, 8), Y: 8 + sy*r.Range(0, 3)}, Pt{X: 8 + sx*r.Range(0, 3), Y: 8 + sy*r.Range(4, 8)}
+			if r.Bool() {
+				a, b = b, a
+			}
+			p = append(p, Pt{X: 8, Y: 8}, a, b)
+		}
+		all = append(all, p)
+		if r.Chance(0.6) {
+			all = append(all, Box(4, 4, 12, 12, r.Bool()))
+		}
+	default: // strips: three or more paths with collinear, partly overlapping edges on one line
+		k := 3 + r.Intn(4)
+		for i := 0; i < k; i++ {
+			a := r.Range(0, 20)
+			b := a + r.Range(1, 10)
+			hgt := r.Range(1, 6)
+			if r.Bool() {
+				all = append(all, orient(Path{{X: a, Y: 8}, {X: b, Y: 8}, {X: b - r.Range(0, 2), Y: 8 + hgt}, {X: a + r.Range(0, 2), Y: 8 + hgt}}, r.Chance(0.8)))
+			} else {
+				all = append(all, orient(Path{{X: a, Y: 8}, {X: b, Y: 8}, {X: (a + b) / 2, Y: 8 - hgt}}, r.Chance(0.8)))
+			}
+		}
+	}
+	// a shear keeps all incidences and makes the edges non-axis-parallel
+	if r.Chance(0.4) {
+		k := r.Range(1, 3)
+		for i := range all {
+			for j := range all[i] {
+				all[i][j].X += k * all[i][j].Y
+			}
+		}
+	}
+	scale := PickOf(r, int64(1), 3, 10, 1000, 1<<20)
+	var ox, oy int64
+	if scale <= 1000 && r.Chance(0.4) { // stays within +-2^29
+		const big = int64(1)<<29 - 1<<20
+		ox, oy = PickOf(r, big, -big, 1<<28+12345), PickOf(r, big, -(int64(1)<<28), 0)
+	}
+	for i := range all {
+		for j := range all[i] {
+			all[i][j].X = all[i][j].X*scale + ox
+			all[i][j].Y = all[i][j].Y*scale + oy
+		}
+	}
+	cp := r.FloatRange(0, 0.6)
+	for _, i := range r.Perm(len(all)) {
+		if r.Chance(cp) {
+			clp = append(clp, all[i])
+		} else {
+			subj = append(subj, all[i])
+		}
+	}
+	if len(subj) == 0 {
+		subj, clp = clp, nil
+	}
+	return
+}
